@@ -27,11 +27,11 @@ def cfg_hook(rng, cfg, fam, i):
 
 
 FAMILIES = ["buffer-stress", "exact-chain", "stripe-stress", "exact-dag", "alias-stress", "buffer-stress", "exact-chain", "shared-weights", "stripe-resize", "approx-tail",
-            "buffer-stress", "mixed-width", "cpu-mix", "exact-chain-big", "lut-stress", "tiny", "exact-dag", "stripe-resize", "shared-weights"]
+            "buffer-stress", "mixed-width", "cpu-mix", "exact-chain-big", "lut-stress", "tiny", "exact-dag", "stripe-resize", "shared-weights", "exact-chain", "exact-chain-big"]
 
 
 def gen_cases(tier, seed):
-    return campaign.gen_cases(tier, seed, 2, 420, 12000, families=FAMILIES, cfg_hook=cfg_hook)
+    return campaign.gen_cases(tier, seed, 2, 560, 12000, families=FAMILIES, cfg_hook=cfg_hook)
 
 
 def check_artefact(c, viol, counters, sets):
